@@ -18,6 +18,9 @@ def make_cases(tier, seed):
             kw.update(preamble=gen.gen_preamble(r, nbps=r.choice([2, 3, 4])), weights=dict(setactive=12, wb=10))
         elif style == 2:
             kw.update(stats_p=0.8)
+            if i % 24 == 2:
+                # tick rates finer than nanoseconds (the property only asks for ticks_per_second >= 1)
+                kw.update(preamble=gen.gen_preamble(r, nbps=r.choice([1, 2]), tps=r.choice([10 ** 12, 3 * 10 ** 9, 2 ** 40, 10 ** 9 + 1])))
         elif style == 4 and i % 16 == 4:
             # a few records with strings longer than the decoder window and several encoder buffers
             kw.update(huge=0.05, nops=r.choice([10, 30]), preamble=gen.gen_preamble(r, nbps=1, hints=(gen.ALL_QRH, gen.ALL_SIGH, 3, 3)))
